@@ -131,6 +131,31 @@ CHECKS["C08"] = ("chain", "exploration",
     "Probe blocks contain exactly one transaction; signers whose account the empty block itself changes are skipped (counted). Events are not consensus state.",
     "DESIGN.md 4/C08")
 
+CHECKS["C09"] = ("chain", "exploration",
+    "adversarial derivative generation with exact state diffs against an independent signature/nonce predicate (rapid)",
+    "At generated points of generated histories a correctly signed and sequenced transaction is taken and 10-40 (quick) derivatives are each executed alone in an uncommitted block with an exact working-state diff: "
+    "bit flips anywhere, envelope re-encodings, other key over the same blob, signatures under every other registered signature context (listed through a verif hook), other chain context, no chain separation, raw "
+    "blob, zero signature, re-signed nonce variants, replay inside one block, replay in later blocks and after restarts of the disk-backed replica. A byte string may change state only if stdlib ed25519 verifies it "
+    "over the harness-computed digest for this chain and its nonce is current; each effect advances exactly that signer's nonce by one; effective altered encodings must decode to the identical statement.",
+    "Effects are observed through single-transaction probe blocks; multi-transaction blocks are covered by the nonce/fee reasoning of C08 and the supply invariants of C05.",
+    "DESIGN.md 4/C09")
+CHECKS["C07"] = ("kv", "fault_enumeration",
+    "exhaustive crash-point enumeration per generated history with child processes killed at verif-tagged crash markers",
+    "For generated on-disk histories (both backends) and one target operation (commit, finalize with discarded siblings, prune, checkpoint restore, abort, reopen with leftover restore) a child process first "
+    "counts the crash markers hit between durable writes, then for EVERY hit a fresh child re-executes the history and dies there (os.Exit); the parent reopens the database and checks: finalized versions intact, "
+    "operation applied or not applied, retry reaches exactly the uninterrupted outcome (incl. equal raw key sets for prune/finalize), no partially restored root visible, database keeps working. Two defects "
+    "found were repaired in /repo; three pathbadger/badger multipart findings are known findings with probes.",
+    "Crash = process death with the operating system running (NoFsync is what the consensus layer uses; power loss is not claimed). Crash points are those between durable writes, not inside a badger batch flush.",
+    "DESIGN.md 4/C07")
+CHECKS["C12"] = ("kv", "exploration",
+    "round trip + determinism + corruption rejection over generated trees, chunkings and restore schedules (rapid)",
+    "Generated contents (empty to 300 / 3000 keys, deep prefix chains), chunk sizes from 1 byte to larger than the tree, chunker threads 0-32, both backends in both roles; restore plans with permutations, "
+    "duplicates, broken transfers, abort/restart and 1-4 concurrent callers behind a barrier. After finalization the restored root must exist, scan to exactly the source contents, hash to the reference root, "
+    "survive reopen and accept a further commit; checkpoint metadata and chunk bytes must be identical across runs, GOMAXPROCS and source backends and the chunks must cover every key (independent proof "
+    "evaluator); one corrupted chunk per case (raw and digest-recomputed kinds incl. chunks of a neighbouring tree) must be rejected without changing anything readable.",
+    "Two known findings (restore after an aborted restore on pathbadger; trees deeper than the verifier's maxProofDepth) are excluded by construction and probed deterministically.",
+    "DESIGN.md 4/C12")
+
 NOT_APPLICABLE = {
 }
 
